@@ -3,7 +3,7 @@ only owned descriptors are used).  DESIGN 6.14, 6.16; conventions fam/README.md.
 
 Implementation side: harness/h_storage.c + sysshim.c drive the REAL raw.c, trash.c, tiff.cpp, side-by-side-tiff.cpp,
 basic.storage.c, basics.driver.c, linux/platform.c, props/storage.c and the HAL storage.c/driver.c of the tree under test,
-with open/flock/pwrite/close wrapped at link time (fault + short-write scripts, call log); every case runs in a forked
+with open/flock/ftruncate/pwrite/close wrapped at link time (fault + short-write scripts, call log); every case runs in a forked
 child.  Model side: oracle/main.ml around the extracted Hal.step / Hal.hal_close.
 """
 import json
@@ -27,11 +27,21 @@ REPO_SOURCES = [
 ]
 INCLUDES = [CL + "/acquire-core-logger", CL + "/acquire-core-platform/linux", CL + "/acquire-device-properties",
             CL + "/acquire-device-kit", CL + "/acquire-device-hal", DC]
-WRAP = "-Wl,--wrap=open,--wrap=flock,--wrap=pwrite,--wrap=close,--wrap=file_create,--wrap=file_write,--wrap=file_close"
+WRAP = ("-Wl,--wrap=open,--wrap=flock,--wrap=ftruncate,--wrap=pwrite,--wrap=close,"
+        "--wrap=file_create,--wrap=file_write,--wrap=file_close")
 RUN_ENV = {"ASAN_OPTIONS": "detect_leaks=0:exitcode=77:allocator_may_return_null=1", "UBSAN_OPTIONS": "exitcode=78:print_stacktrace=1"}
 KINDS = ["raw", "tiff", "tiffjson", "trash"]
-# the error numbers a scripted pwrite failure reports (sysshim.c, Pwrite.errno); a bare "E" in an old corpus file = EIO
-ERRNOS = ["EIO", "ENOSPC", "EAGAIN", "EINTR", "EBADF"]
+# the error numbers a scripted pwrite / ftruncate failure reports (sysshim.c, Pwrite.errno); a bare "E" in an old corpus file = EIO
+ERRNOS = ["EIO", "ENOSPC", "EAGAIN", "EINTR", "EBADF", "EINVAL"]
+# create-script entries (one per open call): o = the create succeeds, f = the open fails, l = the flock after it fails, and --
+# open and flock succeed, the ftruncate(fd, 0) that file_create issues third fails -- one letter per errno
+TRUNC_CH = {"EIO": "t", "ENOSPC": "s", "EAGAIN": "a", "EINTR": "r", "EBADF": "b", "EINVAL": "v"}
+TRUNC_ERRNO = {ch: e for e, ch in TRUNC_CH.items()}
+TRUNC_LETTERS = "".join(TRUNC_CH[e] for e in ERRNOS)
+CS_LEGEND = ("create script `c <tail> <entries>`: one letter per open() call, <tail> for every call after the listed ones; o = open, flock and "
+             "ftruncate succeed; f = open fails (EACCES); l = the flock after a successful open fails (EWOULDBLOCK); the ftruncate after a "
+             "successful open + flock fails with " + ", ".join("%s = %s" % (TRUNC_CH[e], e) for e in ERRNOS) +
+             " (an entry that meets the open of a writability probe, which issues neither flock nor ftruncate, is a plain success)")
 EXIT_TRUNC, EXIT_SPIN = 79, 80      # step budget of sysshim.c: one call logged > 4000 lines / the same pwrite reissued 1000 times
 
 
@@ -191,6 +201,30 @@ def gen_history(rng, kind, thorough=False, related=False):
     return {"kind": kind, "meta": meta, "ops": out, "cs": ["o", ""], "ws": ["F", []], "reuse": reuse, "rel": rel}
 
 
+def gen_structured(rng, kind, variant=0):
+    """Two acquisitions on one device with the rest of the process opening a descriptor right after each start (and, in
+    the odd variants, closing it again before the stop): if a start leaves the device with a number it has already
+    closed -- a create that failed after its open -- the environment is given that number at once, so every later
+    append / stop of the device acts on a descriptor of somebody else.  Swept by fault_sweep like the random
+    reference histories (every open index x open / flock / ftruncate fault x every errno)."""
+    ext = EXT[kind]
+    meta = '{"a":1}' if kind == "tiffjson" or (kind == "tiff" and variant % 2) else None
+    ops = []
+    for c in range(2):
+        name = "s%d%s" % (c, ext)
+        ops.append(["set", ("file://" if (c + variant) % 2 else "") + name])
+        ops.append(["start"])
+        ops.append(["envopen"])
+        for _ in range(rng.randrange(1, 3)):
+            data, frames = make_packet(rng, rng.randrange(1, 3), 24)
+            ops.append(["append", data.hex(), frames])
+        if variant % 2:
+            ops.append(["envclose", 0])
+        if c == 0 or variant % 3 != 2:
+            ops.append(["stop"])           # variant 2, 5: the second acquisition is closed while running
+    return {"kind": kind, "meta": meta, "ops": ops, "cs": ["o", ""], "ws": ["F", []], "reuse": False, "rel": [], "structured": True}
+
+
 def annotate_frames(case):
     """Attach to every append the section lengths of its frames as tiff.cpp will write them: pixel bytes, string-section
     bytes when the frame is the first after a start (it then carries the external metadata), and otherwise."""
@@ -306,7 +340,7 @@ def parse_output(text):
                 k = w[-1] == "k=1"
                 w = w[:-1]
             op["kopen"].append(k)
-            if w[-1].startswith("e="):            # errno name of a failed pwrite (harness only; not an observable of the tie)
+            if w[-1].startswith("e="):            # errno name of a failed pwrite / ftruncate (harness only; not an observable of the tie)
                 op.setdefault("errno", {})[len(op["sys"])] = w[-1][2:]
                 w = w[:-1]
             if w[1] == "pwrite":
@@ -393,8 +427,8 @@ def read_file(case, path):
 def canon_ops(rec, kind, prop="C16"):
     """Observables compared per call.  C16: every interposed system call with its descriptor number and result.
     C14 (file contents): which file is opened and what is written where -- descriptor numbers are canonicalised to the
-    path they were opened with, and flock/close calls and the descriptor table are left to C16 (a stray close does not
-    change what a raw file contains)."""
+    path they were opened with, and flock/ftruncate/close calls and the descriptor table are left to C16 (a stray close does
+    not change what a raw file contains; what a truncation that did or did not happen does to the file is seen in its bytes)."""
     out = []
     path_of = {}
     for o in rec["ops"]:
@@ -555,8 +589,10 @@ def reissued_ok(sysl, i):
 
 
 def oracle_c16(case, impl, stderr=""):
-    """C16 directly on the implementation's outputs: exit status; descriptor ledger over the system-call log; state
-    after an append/start inside which file_create/file_write returned 0; the kernel's view of the table at the end."""
+    """C16 directly on the implementation's outputs: exit status; descriptor ledger over the system-call log (open, flock,
+    ftruncate, pwrite, close); state after an append/start inside which file_create/file_write returned 0; a start that
+    answers Running although a system call of its create (open / flock / ftruncate) failed and it holds no descriptor;
+    the kernel's view of the table at the end."""
     v = []
     if impl is None:
         return [("no-output", "the harness produced no output for the case")]
@@ -597,7 +633,7 @@ def oracle_c16(case, impl, stderr=""):
                     own.add(s[2])
                 continue
             fd = s[1]
-            what = {"close": "closes", "pwrite": "writes to", "flock": "locks"}[s[0]]
+            what = {"close": "closes", "pwrite": "writes to", "flock": "locks", "ftruncate": "truncates"}[s[0]]
             # ground truth where the harness recorded it (k=...): the number must be open and must not belong to the
             # rest of the process; otherwise (no kernel information) fall back to the opens seen
             if kopen is not None:
@@ -620,6 +656,20 @@ def oracle_c16(case, impl, stderr=""):
         if o["name"] in ("start", "append") and failed_call and o["res"] and o["res"][1] == "Running":
             v.append(("failure-not-reported", "op %d (%s): file_create/file_write returned 0 inside the call but the device is still Running afterwards"
                       % (k, o["name"])))
+        # a create that failed at any of its three system calls (whatever file_create itself returned): the device must not
+        # be Running on nothing.  Judged on the kernel's view: Running after the start, a call of the create failed, and no
+        # descriptor opened by the device is open any more.
+        cfail = [(i, s) for i, s in enumerate(o["sys"]) if s[0] in ("open", "flock", "ftruncate") and s[-1] < 0]
+        if o["name"] == "start" and cfail and o["res"] and o["res"][1] == "Running" and not own:
+            i, s = cfail[-1]
+            fdtxt = "of %r" % s[1] if s[0] == "open" else "on descriptor %d" % s[1]
+            e = (o.get("errno") or {}).get(i)
+            after = [list(t) for t in o["sys"][i + 1:i + 3]]
+            v.append(("create-failure-not-reported",
+                      "op %d (start): the %s %s failed%s inside the create%s, yet the start answered %s/Running: the device is Running "
+                      "without holding any open descriptor (file_create returned %s)"
+                      % (k, s[0], fdtxt, " (errno %s)" % e if e else "", (" and was followed by %s" % after) if after else "", o["res"][0],
+                         [a[1] for a in o["api"] if a[0] == "file_create"])))
         if o["name"] in ("start", "append") and o["res"] and o["res"][1] == "Running" and any(
                 s[0] == "pwrite" and s[4] < 0 and not reissued_ok(o["sys"], i) for i, s in enumerate(o["sys"])):
             v.append(("failure-not-reported", "op %d (%s): a pwrite failed inside the call but the device is still Running afterwards" % (k, o["name"])))
@@ -776,8 +826,10 @@ def replay_obj(ctx, case, impl_rec, what):
     lines = harness_lines(case, "replay", "<an empty scratch directory>")
     return {"case": c, "from": case.get("src", "generated (seed %d)" % ctx.seed), "harness_stdin": lines,
             "how": "feed harness_stdin to .build/%s/h_storage (built by this check from the tree under test; env %s); "
-                   "S lines are the system calls, R lines the HAL status and device state after each call" % (ctx.prop, json.dumps(RUN_ENV)),
-            "observed": [[o["name"], [list(s) for s in o["sys"]][:12], o["res"]] for o in (impl_rec or {}).get("ops", [])][:40],
+                   "S lines are the system calls, R lines the HAL status and device state after each call; %s"
+                   % (ctx.prop, json.dumps(RUN_ENV), CS_LEGEND),
+            "observed": [[o["name"], [list(s) for s in o["sys"]][:12], o["res"]] + ([["env " + e[0], e[1]] for e in o["env"]] if o["env"] else [])
+                         for o in (impl_rec or {}).get("ops", [])][:40],
             "exit": (impl_rec or {}).get("exit")}
 
 
@@ -785,7 +837,7 @@ def replay_obj(ctx, case, impl_rec, what):
 def fold(ctx, orac, impl, results, prop, label):
     for case, io, mo, err in results:
         nsys = sum(len(o["sys"]) for o in (io or {}).get("ops", []))
-        faults = any(s[0] in ("open", "flock") and s[-1] < 0 or s[0] == "pwrite" and s[4] < 0
+        faults = any(s[0] in ("open", "flock", "ftruncate") and s[-1] < 0 or s[0] == "pwrite" and s[4] < 0
                      for o in (io or {}).get("ops", []) for s in o["sys"])
         shorts = any(s[0] == "pwrite" and 0 <= s[4] < s[3] for o in (io or {}).get("ops", []) for s in o["sys"])
         nontriv = nsys >= 4 and (prop == "C16" and (faults or len(case["ops"]) >= 3) or prop == "C14" and any(o[0] == "append" for o in case["ops"]))
@@ -803,6 +855,13 @@ def fold(ctx, orac, impl, results, prop, label):
             ctx.count("paths:" + how)
         for e in set(t for t in case["ws"][1] + [case["ws"][0]] if is_err_tok(t)):
             ctx.count("errno:" + ("EIO" if e == "E" else e) + (":persistent" if case["ws"][0] == e else ":transient"))
+        for ch in set(case["cs"][1] + case["cs"][0]):
+            if ch in TRUNC_ERRNO:
+                ctx.count("errno:ftruncate:" + TRUNC_ERRNO[ch] + (":persistent" if case["cs"][0] == ch else ":transient"))
+            elif ch in "fl":
+                ctx.count("create-fault:" + {"f": "open", "l": "flock"}[ch] + (":persistent" if case["cs"][0] == ch else ":transient"))
+        if any(s[0] == "ftruncate" and s[-1] < 0 for o in (io or {}).get("ops", []) for s in o["sys"]):
+            ctx.count("case:with-failed-ftruncate")
         if io and (io.get("spin") or io.get("exit") == (EXIT_SPIN, 0)):
             ctx.count("case:cut-off-spinning")
         if io and io["ops"] and io["ops"][-1]["name"] == "close":
@@ -917,23 +976,48 @@ def clone(case):
 
 def fault_sweep(rng, case, nopen, nwrite, limit=None):
     """Every index of a create or write call of the reference history, transient (that one call fails) and persistent
-    (every call from that index on fails); create faults as a failing open and as a failing flock.  Every failing
-    pwrite reports an errno of ERRNOS: the errno rotates with the index (independently for the transient and the
-    persistent case, random phase per history), a history with fewer than 5 swept indices gets every errno at every
-    index, and every history gets one persistent case per errno at a random index on top."""
+    (every call from that index on fails); create faults as a failing open, as a failing flock and as a failing
+    ftruncate (the create fails at its first / second / third system call).  Every failing pwrite and every failing
+    ftruncate reports an errno of ERRNOS: the errno rotates with the index (independently for the transient and the
+    persistent case, random phase per history), a history with fewer than 6 swept indices gets every errno at every
+    index, and every history gets one persistent case per errno at a random index on top.  A failing ftruncate is also
+    combined with a LATER fault: a pwrite error or a second create fault (open / flock / ftruncate) further on."""
     out = []
     pa, pb = rng.randrange(len(ERRNOS)), rng.randrange(len(ERRNOS))
+    qa, qb = rng.randrange(len(ERRNOS)), rng.randrange(len(ERRNOS))
     idx_o = list(range(nopen))
     idx_w = list(range(nwrite))
     if limit is not None:
         if len(idx_w) > limit:
             idx_w = sorted(rng.sample(idx_w, limit))
     for k in idx_o:
-        for ch in "fl":
-            for persistent in (False, True):
+        for persistent in (False, True):
+            terrs = ERRNOS if len(idx_o) < 6 else [ERRNOS[(k + (qa if persistent else qb)) % len(ERRNOS)]]
+            for ch in ["f", "l"] + [TRUNC_CH[e] for e in terrs]:
                 c = clone(case)
                 c["cs"] = [ch if persistent else "o", "o" * k + ch]
                 out.append(c)
+        # the ftruncate of create k fails, and something fails later as well
+        e = ERRNOS[(k + qb + 1) % len(ERRNOS)]
+        if nwrite:
+            c = clone(case)
+            c["cs"] = ["o", "o" * k + TRUNC_CH[e]]
+            kw = rng.randrange(nwrite)
+            ew = rng.choice(ERRNOS)
+            pers = rng.random() < 0.5
+            c["ws"] = [ew if pers else "F", ["F"] * kw + [ew]]
+            out.append(c)
+        if k + 1 < nopen:
+            c = clone(case)
+            k2 = rng.randrange(k + 1, nopen)
+            c["cs"] = ["o", "o" * k + TRUNC_CH[e] + "o" * (k2 - k - 1) + rng.choice("fl" + TRUNC_LETTERS)]
+            out.append(c)
+    if nopen:
+        for e in ERRNOS:
+            k = rng.randrange(nopen)
+            c = clone(case)
+            c["cs"] = [TRUNC_CH[e], "o" * k]
+            out.append(c)
     for k in idx_w:
         for persistent in (False, True):
             errs = ERRNOS if len(idx_w) < 5 else [ERRNOS[(k + (pa if persistent else pb)) % len(ERRNOS)]]
@@ -961,26 +1045,30 @@ def run(ctx):
     thorough = ctx.tier == "thorough"
     rng = ctx.rng
     ctx.assumptions = [
-        "POSIX open/flock/pwrite/close are oracles: open returns the lowest free number, pwrite returns any count 0..n or fails, as scripted",
+        "POSIX open/flock/ftruncate/pwrite/close are oracles: open returns the lowest free number or fails, flock and ftruncate succeed or fail, "
+        "pwrite returns any count 0..n or fails, as scripted (a create can fail at each of its three system calls)",
         "std::filesystem calls of side-by-side-tiff (exists/create_directory/status) always succeed (not interposed)",
         "StorageProperties passed to set() come from storage_properties_init (non-NULL uri, valid json); malloc does not fail",
         "the runtime does not reconfigure a running device (no set while Running; C08's subject) -- stated as hypothesis `disciplined` in the theorems",
         "storage_close is exercised as storage_stop + driver_close_device; its final write to the freed object (D10, C11) is left out",
         "64-bit wrap of offsets is not modelled (offsets are unbounded naturals)",
-        "ftruncate(fd, 0) in file_create (and access/unlink in file_is_writable) are not interposed and are taken to succeed; "
-        "an existing file is taken to be writable",
+        "access/unlink in file_is_writable are not interposed and are taken to succeed; an existing file is taken to be writable; a failed "
+        "ftruncate leaves the file's contents alone; a successful one empties it",
     ]
     ctx.notes.append("theorems quantify over all histories, all packets, all create/write scripts (every fault index, transient or persistent, every "
                      "short-write pattern) and all descriptor tables, by induction; the correspondence samples them and sweeps every fault index "
                      "of its reference histories")
-    ctx.notes.append("model = the code with fixes/01-04 applied (05 is in /repo as a3ee066) and file_create truncating (468e0c6)")
+    ctx.notes.append("model = the code with fixes/01-04 applied (05 is in /repo as a3ee066) and file_create truncating (468e0c6); file_create = "
+                     "open, flock, ftruncate, each of which may fail (FdTable.cresp: CFailOpen / CFailLock / CFailTrunc errno); ftruncate is interposed "
+                     "and is an event of the compared system-call log")
     ctx.extra["scope_notes"] = [
         "C14 oracle: per path, the LAST started acquisition configured for it is judged (exists / exact bytes); earlier acquisitions to the same "
         "path are superseded because file_create truncates (counted in c14_superseded); 'same path' is string equality after file:// stripping",
         "C14 oracle, acquisition whose append failed: the file must begin with the accepted packets and continue with a prefix of the failing one",
-        "the errno of a failing pwrite is part of the fault script; it is logged (e=) but is not an observable of the tie: the model (theorems "
-        "Pwrite_errno_irrelevant, C16_errno_irrelevant) treats every errno alike",
-        "C14 tie: descriptor numbers are canonicalised to paths; flock/close calls and the descriptor table are compared by C16 only",
+        "the errno of a failing pwrite or ftruncate is part of the fault script; it is logged (e=) but is not an observable of the tie: the model "
+        "(theorems Pwrite_errno_irrelevant, C16_errno_irrelevant_file_write, C16_errno_irrelevant_file_create, C16_errno_irrelevant) treats every "
+        "errno alike -- an implementation that treats one errno differently therefore disagrees with the model on the system-call log",
+        "C14 tie: descriptor numbers are canonicalised to paths; flock/ftruncate/close calls and the descriptor table are compared by C16 only",
         "tiff kinds: pwrite offsets and bytes are C15's subject and are not compared here; call, descriptor, length and result are",
     ]
     # ---- replay of a recorded violation:  tools/check.py --property Cxx --replay replays/Cxx-n.json
@@ -1009,12 +1097,13 @@ def run(ctx):
                     "earlier one (run1 then run10, out.raw then out.raw.1), is a strict prefix of an earlier one, is the same path again (either "
                     "spelling), or is configured after a set of its own prefix without a start in between (counted as paths:*). Each history runs "
                     "under pwrite scripts aimed at each packet: full, 1, n-1, "
-                    "random splits, bursts of 1..3 zero-length results, rare errors (errno drawn from EIO/ENOSPC/EAGAIN/EINTR/EBADF); a quarter of the cases also fail one create. "
+                    "random splits, bursts of 1..3 zero-length results, rare errors (errno drawn from EIO/ENOSPC/EAGAIN/EINTR/EBADF/EINVAL); a quarter of the cases also fail "
+                    "one create at its open, its flock or its ftruncate (any of the six errnos). "
                     "Independent oracle on the files of EVERY case: a file exists at the path of every started acquisition; it holds exactly the packets of the "
                     "last acquisition configured for that path (prefix rule for an acquisition whose append failed); violations are minimised (ops, packets, scripts). "
                     "The first disagreements with the model are shrunk too, with the oracle run on every candidate. Compared with the "
                     "extracted model: every open (path, success) and pwrite (file, offset, length, result), HAL status and device state per call, final "
-                    "bytes of every file read back from disk (flock/close calls, descriptor numbers and the descriptor table are C16's observables). Non-trivial = at least one append and >= 4 system calls; "
+                    "bytes of every file read back from disk (flock/ftruncate/close calls, descriptor numbers and the descriptor table are C16's observables). Non-trivial = at least one append and >= 4 system calls; "
                     "distinct = distinct (scripts, op list).")
         n = 60000 if thorough else 6000
         for i in range(n):
@@ -1022,7 +1111,7 @@ def run(ctx):
             short_write_script(rng, c)
             if rng.random() < 0.25:
                 k = rng.randrange(0, 8)
-                c["cs"] = ["o", "o" * k + rng.choice("fl")]
+                c["cs"] = ["o", "o" * k + rng.choice("ffllt" + TRUNC_LETTERS)]
             cases.append(c)
         ctx.sample({"kind": "raw", "ops": [o[:2] if o[0] != "append" else ["append", "%d bytes" % (len(o[1]) // 2)] for o in cases[0]["ops"]],
                     "ws": cases[0]["ws"], "cs": cases[0]["cs"]})
@@ -1030,18 +1119,29 @@ def run(ctx):
         ctx.rule = ("reference histories (set/start/append*/stop cycles with life-cycle noise: never started, double start, stop/append when idle, "
                     "close while running, foreign descriptors opened and closed in between) for each kind raw, tiff, tiff-json, trash; for EVERY index "
                     "of an open or pwrite call of the fault-free run one case with that call failing once and one with it failing from then on "
-                    "(open failure and flock failure; pwrite error with an errno of EIO/ENOSPC/EAGAIN/EINTR/EBADF rotating over the indices, every errno "
-                    "persistent at least once per history -- counted as errno:*; three zero-length results), plus random mixes of faults and short writes. Each case "
+                    "(open failure, flock failure and ftruncate failure -- the create fails at its first, second or third system call; ftruncate and pwrite "
+                    "errors with an errno of EIO/ENOSPC/EAGAIN/EINTR/EBADF/EINVAL rotating over the indices, every errno "
+                    "persistent at least once per history -- counted as errno:* / errno:ftruncate:*; a failing ftruncate also combined with a later pwrite or "
+                    "create fault; three zero-length results), plus STRUCTURED two-acquisition histories per kind in which the rest of the process opens a file "
+                    "right after each start (so a descriptor number the device has closed is re-used at once) swept the same way, plus random mixes of faults "
+                    "and short writes. Each case "
                     "runs in a forked child of the harness; crash / stack overflow / a call that does not return within the budget (the same pwrite reissued "
                     "1000 times without progress -> exit 80; > 4000 system calls in one call -> exit 79; CPU 10 s; wall 30 s) are observables attributed to the case. "
                     "Compared with the extracted model: "
                     "system-call log, HAL status and state per call, final descriptor table. Non-trivial = a system call failed or >= 3 ops, and >= 4 "
                     "system calls.")
-        nref = 330 if thorough else 12    # x 3 kinds (+ trash/6): quick sweeps every fault index of 38 histories, thorough of 1045
+        nref = 300 if thorough else 12    # x 3 kinds (+ trash/6): quick sweeps every fault index of 38 histories, thorough of 950
+                                          # (+ 6 / 18 structured ones below); 300 keeps thorough at ~15 min with the ftruncate faults
         refs = []
         for kind in KINDS:
             for i in range(nref if kind != "trash" else max(1, nref // 6)):
                 refs.append(gen_history(rng, kind, False, related=True))
+        nstruct = 0
+        for kind in KINDS[:3]:
+            for i in range(6 if thorough else 2):
+                refs.append(gen_structured(rng, kind, i))
+                nstruct += 1
+        ctx.extra["structured_reference_histories"] = nstruct
         counts = count_calls(orac, refs)
         for c, (no, nw) in zip(refs, counts):
             cases.append(clone(c))
@@ -1055,7 +1155,8 @@ def run(ctx):
                 r = rng.random()
                 toks.append("F" if r < 0.7 else rng.choice(ERRNOS) if r < 0.8 else str(rng.choice([0, 0, 1, 7, 100])))
             c["ws"] = [rng.choice(["F", "F", "F", rng.choice(ERRNOS), "0"]), toks]
-            c["cs"] = [rng.choice(["o", "o", "o", "f", "l"]), "".join(rng.choice("oooofl") for _ in range(rng.randrange(0, 10)))]
+            c["cs"] = [rng.choice(["o", "o", "o", "o", "f", "l", rng.choice(TRUNC_LETTERS)]),
+                       "".join(rng.choice("oooooofl" + rng.choice(TRUNC_LETTERS)) for _ in range(rng.randrange(0, 10)))]
             cases.append(c)
         ctx.sample({"kind": refs[0]["kind"], "ops": [o[:2] if o[0] != "append" else ["append", "%d bytes" % (len(o[1]) // 2)] for o in refs[0]["ops"]],
                     "sweep": "cs/ws scripts fail call k once / forever for every k"})
